@@ -8,13 +8,19 @@ LEAN_TARGETS = ["Asynkit.Props.C12", "Asynkit.Lemmas.GenEqLock"]
 PROPS_FILES = ["Asynkit/Props/C12.lean", "Asynkit/Lemmas/GenEqLock.lean"]
 DRIVERS = ["Lock"]
 TRUSTED = [
-    "Lean 4.33 kernel; axioms ⊆ {propext, Classical.choice, Quot.sound} (audited per theorem each run)",
-    "hand-written models Asynkit/Model/{Lock,PrioGraph}.lean (acquire's queueing with the arrival-time key, "
-    "_wake_up_first, propagate_priority's re-keying walk, effective_priority), tied to "
-    "src/asynkit/experimental/priority.py by trace acceptance through lean/Drivers/Lock.lean: after every "
+    'Lean 4.33 kernel; axioms ⊆ {propext, Classical.choice, Quot.sound} (audited per theorem each run)',
+    'translated, not trusted: PriorityTask/PriorityLock effective_priority and propagate_priority (mutually '
+    'recursive, with a recursion bound), _take_lock, _wake_up_first, release and the three segments of acquire '
+    'are re-translated from priority.py on every run (translator/lock2lean.py -> Gen/Lock.lean) and proved equal '
+    'to effT/effL, propT/propL and the acquire/resume/release events of Asynkit/Model/{PrioGraph,Lock}.lean '
+    '(Lemmas/GenEqLock.lean, 53 theorems)',
+    'hand-written and tied only by trace acceptance through lean/Drivers/Lock.lean (every real trace replayed: '
+    'each event enabled, each observation equal): the kernel half of Model/Lock.lean (task stepping, cancel / '
+    'throw delivery, Event) and the representation choices of Model/LockPrims.lean (locks, tasks, futures as '
+    'indices; weakrefs never die while queued; _waiters None = empty; arrival-order iteration); after every '
     "handle the waiter order, every waiter key and every effective priority must equal the model's",
-    "asyncio kernel modelled, not verified (see C13); the waiter PriorityQueue pops in (key, arrival) order "
-    "and reschedule() keeps the arrival rank (property C17)",
+    'asyncio kernel modelled, not verified (see C13); the waiter PriorityQueue pops in (key, arrival) order and '
+    'reschedule() keeps the arrival rank (property C17)',
 ]
 ASSUMPTIONS = [
     "locks are acquired in a fixed order (acyclic wait-for graph); priorities of a task do not change by "
@@ -52,8 +58,14 @@ def gen(rng, n):
             out.append(S.gen_inherit_case(rng, "C12"))
         elif g < 0.85:
             out.append(S.gen_chain_contended_case(rng, "C12"))
-        elif g < 0.93:
+        elif g < 0.90:
             out.append(S.gen_reuse_case(rng))
+        elif g < 0.93:
+            out.append(S.gen_between_owners_case(rng))
+        elif g < 0.96:
+            out.append(S.gen_chain_giveup_case(rng))
+        elif g < 0.985:
+            out.append(S.gen_two_episodes_case(rng))
         else:
             out.append(S.gen_chain_case(rng))
     return out
